@@ -711,6 +711,20 @@ Theorem C10_grammar_scala_classes :
 Proof. exact Proofs.C10_SCGrammarFile.sc_generate_recognised_classes. Qed.
 Print Assumptions C10_grammar_scala_classes.
 
+(* The same with COMPUTABLE hypotheses only: every type_mappings value and every Scala type override is a name of the grammar
+   (identifier-shaped, not a reserved word: String, Instant, BigInt ...), the package name splits at its dots into such names; the
+   program is in dom_C10 and in none of the five finding classes. *)
+Theorem C10_grammar_scala_simple :
+  forall (uc : unicode) (cfg : sc_config) (pd : parsed) (text : str),
+    Proofs.C10_SC.c10_sc_cfg_ok cfg = true -> Proofs.C10_SCGrammarFile.c10_scg_cfg_simple cfg = true -> dom_C10 CSC pd = true ->
+    known_C10 CSC (sc_package cfg) pd = [] -> known_C10_sc_grammar (sc_package cfg) pd = [] ->
+    Proofs.C10_SCGrammarFile.c10_scg_overrides_simple pd = true ->
+    sc_generate uc cfg pd = Ok text ->
+    exists n : nat, c10_sc_recognise text = Some n /\
+                    (List.length (p_aliases pd) + List.length (p_structs pd) + List.length (p_enums pd) <= n)%nat.
+Proof. exact Proofs.C10_SCGrammarFile.sc_generate_recognised_simple. Qed.
+Print Assumptions C10_grammar_scala_simple.
+
 (* The hypotheses are satisfiable and acceptance means something: a program with a documented generic case class (String, an
    Option with its `= None` default, Vector, a mapped Url, Map of a generic application, a dashed doubly-optional key, a verbatim
    override `Map[String, Vector[Int]]`), a struct without fields, a generic alias, a unit enum and a tagged enum with unit / tuple /
